@@ -4,8 +4,8 @@
 #include "props/reg_glue.hpp"
 using namespace rg;
 
-enum Kind { SET, BITSET, BITCLR, BWRITE, SANITISE, CORRUPT, BWCUR, NKINDS };   // BWCUR: block write of raw words = current content of [addr, addr+raw) with `words` patched in at offset h
-static const char *kname[] = {"set", "bitset", "bitclr", "bwrite", "sanitise", "corrupt", "bwcur"};
+enum Kind { SET, BITSET, BITCLR, BWRITE, SANITISE, CORRUPT, BWCUR, MODE, NKINDS };   // MODE: the application state the callback validators consult changes (rm::cb_mode)   // BWCUR: block write of raw words = current content of [addr, addr+raw) with `words` patched in at offset h
+static const char *kname[] = {"set", "bitset", "bitclr", "bwrite", "sanitise", "corrupt", "bwcur", "mode"};
 struct Op { int kind; uint32_t h; int vtype; uint64_t raw; uint32_t addr; std::vector<uint16_t> words; };
 struct Case { uint64_t tseed; bool with_fail; TableD t; std::vector<Op> ops; };
 
@@ -26,6 +26,8 @@ static std::string run_case(const Case &c, std::string &msg, bool classify) {
     Live lv(t);
     RegisterInit in = lv.init();
     if (in.code != REG_INIT_SUCCESS) { msg = vp::fmt("valid table refused: code %d", (int)in.code); return "init:refused"; }
+    rm::cb_mode() = 0;
+    struct ModeReset { ~ModeReset() { rm::cb_mode() = 0; } } mode_reset;
     rm::Space m; m.init(t);
     for (size_t i = 0; i < t.areas.size(); i++) if (!t.areas[i].membacked) for (uint32_t k = 0; k < t.areas[i].size; k++) m.mem[i][k] = (uint16_t)(0xbeef + k);
     m.load_defaults();
@@ -109,6 +111,12 @@ static std::string run_case(const Case &c, std::string &msg, bool classify) {
                 OneShotRead &os = cb_read_oneshot(); os.countdown = -1;
                 if (os.fired) { for (size_t ri = 0; ri < t.regs.size(); ri++) if (os.address >= t.regs[ri].addr && os.address < t.regs[ri].end()) insane[ri] = true; vp::cls("sanitise-with-a-driver-that-reports-unreadable-content"); }
             }
+            {   // after a mode switch a register's default itself may be refused by the rule now in force: sanitise then rightly fails half-way.
+                // Not judged: whatever it left is taken over, the bracket stays open.
+                bool def_refused = false;
+                for (size_t ri = 0; ri < t.regs.size(); ri++) if (insane[ri] && !t.regs[ri].satisfied(rm::canon(t.regs[ri].type, t.regs[ri].def))) def_refused = true;
+                if (def_refused) { lv.snapshot(m.mem); for (size_t ri = 0; ri < t.regs.size(); ri++) m.touched[ri] = register_was_touched(&lv.t, (RegisterHandle)ri); vp::stats().dontcare++; continue; }
+            }
             if (a.code != REG_ACCESS_SUCCESS) { msg = vp::fmt("sanitise failed: %s at %u", code_name(a.code), a.address); return "sanitise:failed"; }
             for (size_t ri = 0; ri < t.regs.size(); ri++) { if (insane[ri]) { m.store(t.regs[ri], rm::canon(t.regs[ri].type, t.regs[ri].def)); reset = true; } else if (corrupted) kept = true; m.touched[ri] = false; }
             long d = lv.diff(m);
@@ -121,6 +129,11 @@ static std::string run_case(const Case &c, std::string &msg, bool classify) {
             corrupted = false;
             std::string k = invariant("after sanitise"); if (!k.empty()) return k;
             continue; }
+        case MODE:
+            // from now on the callback validators answer by another rule: registers may hold values the new rule refuses until sanitise has run
+            // (like after an out-of-band corruption); every validation asks the callback afresh
+            rm::cb_mode() ^= 1; corrupted = true;
+            continue;
         case CORRUPT: {
             int ar = m.area_of(o.addr);
             for (size_t k = 0; k < o.words.size(); k++) if (m.mapped(o.addr + (uint32_t)k)) { int a2 = m.area_of(o.addr + (uint32_t)k); uint32_t off = o.addr + (uint32_t)k - t.areas[(size_t)a2].base; lv.storage[(size_t)a2][off] = o.words[k]; m.mem[(size_t)a2][off] = o.words[k]; }
@@ -165,7 +178,7 @@ static rc::Gen<Case> genCase() {
         bool wf = c.with_fail;
         c.ops = *rc::gen::container<std::vector<Op>>(nops, rc::gen::exec([tp, lo, hi, wf, huge]() {
             const TableD &t = *tp;
-            Op o; o.kind = *rc::gen::weightedElement<int>({{6, SET}, {2, BITSET}, {2, BITCLR}, {5, BWRITE}, {wf ? 0 : 2, SANITISE}, {wf ? 0 : 2, CORRUPT}, {huge ? 6 : 1, BWCUR}});
+            Op o; o.kind = *rc::gen::weightedElement<int>({{6, SET}, {2, BITSET}, {2, BITCLR}, {5, BWRITE}, {wf ? 0 : 2, SANITISE}, {wf ? 0 : 2, CORRUPT}, {huge ? 6 : 1, BWCUR}, {wf ? 0 : 1, MODE}});
             o.h = 0; o.vtype = 0; o.raw = 0; o.addr = 0;
             uint64_t sub = *rc::gen::arbitrary<uint64_t>();
             vp::Rng r(sub);   // derived deterministically from a rapidcheck-generated value (keeps the case a pure function of the generated data)
